@@ -1,6 +1,7 @@
 package main
 
 import (
+	"fmt"
 	"go/ast"
 	"go/token"
 	"go/types"
@@ -30,6 +31,7 @@ func init() {
 			{"C03-R4", "removal bookkeeping shape", c03r4},
 			{"C03-R4b", "EDS reports delta semantics exactly when it may omit unchanged clusters", c03r4b},
 			{"C03-R5", "generator-managed names are recorded by the generator", c03r5},
+			{"C03-R6", "no computed set is dropped in the subscription book-keeping", c03r6},
 		},
 	})
 }
@@ -515,4 +517,63 @@ func c03r4b(c *Ctx) {
 	})
 	c.Check("EDS GenerateDeltas return after buildEndpoints found", gd.Pos(), n >= 1, "no return after the buildEndpoints call")
 	c.Floor(3)
+}
+
+// C03-R6: no computed set is dropped in the subscription book-keeping. The sets package has two families: Insert /
+// InsertAll / Merge / Delete* / *InPlace edit the receiver, Union / Difference / Intersection / Copy / Diff return a new
+// value and leave the receiver alone. A call of the second family whose result is discarded does nothing - where the
+// author meant the first family, names are silently not recorded (names delivered by a delta push never enter
+// WatchedResource.ResourceNames, so they are never reported as removed later). Contradiction rule, no table: every call
+// of a pure set operation in the xDS server packages has its result used.
+func c03r6(c *Ctx) {
+	p := c.P
+	pure := map[string]bool{"Union": true, "Difference": true, "Intersection": true, "Copy": true, "Diff": true, "SupersetOf": true,
+		"Contains": true, "ContainsAll": true, "Equals": true, "UnsortedList": true, "SortedList": true, "Len": true, "IsEmpty": true}
+	scope := []string{"/pilot/pkg/xds", "/pkg/xds", "/pilot/pkg/model", "/pilot/pkg/networking/core"}
+	nPure := 0
+	for _, fn := range p.AllFuncs {
+		if !isIstioFunc(fn) || isWrapperFn(fn) || isGenericOrigin(fn) || strings.HasSuffix(p.Fset.Position(fn.Pos()).Filename, "_test.go") {
+			continue
+		}
+		pp := funcPkgPath(fn)
+		in := false
+		for _, s := range scope {
+			if strings.HasPrefix(pp, istioMod+s) {
+				in = true
+			}
+		}
+		if !in || strings.Contains(pp, "/test") {
+			continue
+		}
+		eachInstr(fn, func(ins ssa.Instruction) {
+			call, ok := ins.(*ssa.Call)
+			if !ok {
+				return
+			}
+			sc := call.Call.StaticCallee()
+			if sc == nil {
+				return
+			}
+			o := sc
+			if sc.Origin() != nil {
+				o = sc.Origin()
+			}
+			if o.Pkg == nil || o.Pkg.Pkg.Path() != istioMod+"/pkg/util/sets" || !pure[o.Name()] {
+				return
+			}
+			nPure++
+			used := false
+			for _, r := range *call.Referrers() {
+				if _, dbg := r.(*ssa.DebugRef); !dbg {
+					used = true
+				}
+			}
+			if !used {
+				c.Check("result of a pure set operation is used: "+stableFnName(fn)+"|"+o.Name(), call.Pos(), false,
+					"the result of sets."+o.Name()+" is discarded; "+o.Name()+" does not edit its receiver, so this statement has no effect. If it was meant to record names (Merge / InsertAll edit in place), the names delivered by this push never enter the recorded subscription: they are not reported as removed when they cease to exist, and a delta client keeps resources a state-of-the-world client would have dropped")
+			}
+		})
+	}
+	c.Check("pure set operations in the xDS server packages found (positive control)", token.NoPos, nPure >= 50, fmt.Sprintf("only %d calls of pure set operations recognised", nPure))
+	c.Floor(1)
 }
